@@ -56,7 +56,9 @@ def _attrs(s):
     return d
 
 
-def make_body(kind, what):
+def make_body(kind0, what):
+    kind = kind0.split(".")[0] if not kind0.startswith("Polygon:") else kind0  # "Polygon.cw" etc. are Polygon objects built by C16._mk
+
     def body(H, V):
         import coxeter
         import numpy as rnp
@@ -86,7 +88,7 @@ def make_body(kind, what):
             P = [[V["tx"] + x, V["ty"] + y, V["tz"]] for x, y in pts]
             s = S.Polygon(H.arr(P), normal=[H.num(0), H.num(0), H.num(nz)], test_simple=False)
         else:
-            s = C16._mk(kind, H, V)
+            s = C16._mk(kind0, H, V)
         a0 = _attrs(s)
         if what == "gsd":
             spec = s.gsd_shape_spec
@@ -188,7 +190,7 @@ def _ob(kind, what, tier):
     import coxeter.shapes as S
     from symx.loader import functions_encoded
 
-    cls = getattr(S, kind.split(":")[0])
+    cls = getattr(S, kind.split(":")[0].split(".")[0])
     fl = [shape_getters.from_gsd_type_shapes, cls.gsd_shape_spec.fget] if what == "gsd" else [cls.__repr__] if what == "repr" else [cls.to_hoomd]
     first = dict(a=F(3, 2), b=F(2), c=F(5, 4), tx=F(7, 3), ty=F(-5, 2), tz=F(11, 4))
     first = {k: v for k, v in first.items() if k in names}
@@ -205,7 +207,7 @@ def obligations(tier, seed):
     for kind in C16.KINDS:
         obs.append(_ob(kind, "gsd", tier))
         obs.append(_ob(kind, "repr", tier))
-        if hasattr(getattr(S, kind), "to_hoomd"):
+        if hasattr(getattr(S, kind.split(".")[0]), "to_hoomd"):
             obs.append(_ob(kind, "hoomd", tier))
     for var in ("cw_plus_z", "reflex_second_plus_z", "ccw_minus_z"):
         obs.append(_ob("Polygon:" + var, "repr", tier))
